@@ -122,10 +122,240 @@ fn check_list_order(plan: &Plan, ctx: &Ctx, stats: &mut Stats) -> Result<(), Fai
         }
     }
     classify_common(&sim, stats);
+    let depth = sim.reps.iter().map(|r| max_depth(&r.st)).max().unwrap_or(0);
+    if depth >= 4 {
+        stats.class("identifier path depth >= 4");
+    }
+    if depth >= 7 {
+        stats.class("identifier path depth >= 7");
+    }
+    if sim.reps.iter().any(|r| r.st.len() >= 25) {
+        stats.class("list of 25+ elements");
+    }
     if same_gap {
         stats.class("concurrent inserts into the same gap");
     }
     if same_gap && has_remote_observed_remove(&sim.metas) && cross_compared {
+        stats.cur_nontrivial = true;
+        stats.class("nontrivial");
+    }
+    finish(&sim, stats);
+    Ok(())
+}
+
+// ------------------------------------------------------------------------------------------------
+// structured generator: nested "duels".  Identifier paths only grow when two replicas insert concurrently into
+// the same gap and a later insert goes between the two siblings; random histories practically never nest this more
+// than twice, so this generator builds the nesting on purpose: in every round 2-3 fully synchronised editors insert
+// (each from its own real read) into the gap between the two newest adjacent elements (or right before / after the
+// newest one), then exchange the ops; observers receive each round's ops in a generated order, possibly one round
+// late (always causally), and a round may also delete one of the newest elements.
+
+#[derive(Clone, Debug, Hash, serde::Serialize, serde::Deserialize)]
+pub struct Round {
+    /// which editors insert this round (bitmask over 3 editors; at least two are forced)
+    who: u8,
+    /// per editor: 0/1 = between the two newest adjacent elements, 2 = right before the newest, 3 = right after it
+    gap: [u8; 3],
+    /// delivery order choices for editors and observers
+    order: u16,
+    /// observers lag by one round when the bit is set
+    lag: u8,
+    /// 0 = no delete, otherwise editor (d % 3) deletes the newest element after the exchange
+    del: u8,
+}
+
+#[derive(Clone, Debug, Hash, serde::Serialize, serde::Deserialize)]
+pub struct DuelCase {
+    actors: u16,
+    rounds: Vec<Round>,
+}
+
+fn duel_strategy() -> proptest::strategy::BoxedStrategy<DuelCase> {
+    use proptest::prelude::*;
+    let g = || prop_oneof![5 => Just(0u8), 1 => Just(2u8), 1 => Just(3u8)];
+    let round = (any::<u8>(), [g(), g(), g()], any::<u16>(), 0u8..4, prop_oneof![6 => Just(0u8), 1 => 1u8..4]).prop_map(|(who, gap, order, lag, del)| Round { who, gap, order, lag, del });
+    (any::<u16>(), proptest::collection::vec(round, 3..=14)).prop_map(|(actors, rounds)| DuelCase { actors, rounds }).boxed()
+}
+
+struct OrderOracle {
+    before: HashSet<(u32, u32)>,
+    seqs: Vec<Vec<u32>>,
+}
+
+impl OrderOracle {
+    fn observe(&mut self, sim: &Sim<SList>, r: usize, stats: &mut Stats) -> Result<(), Fail> {
+        let got = SList::observe(&sim.reps[r].st);
+        let want = SList::predict(&sim.metas, sim.reps[r].know).unwrap();
+        stats.observations += 2;
+        let d = diff_on_model(&got, &want);
+        if !d.is_empty() {
+            return Err(Fail::new(mismatch_msg("List membership / API consistency / identifier order", r, &d, &got, &want)));
+        }
+        let seq = list_seq(&sim.reps[r].st);
+        for q in 0..sim.reps.len() {
+            if q != r && sim.reps[q].know == sim.reps[r].know && self.seqs[q] != seq {
+                return Err(Fail::new(format!("replicas r{r} and r{q} applied the same ops but read {seq:?} vs {:?}", self.seqs[q])));
+            }
+        }
+        for i in 0..seq.len() {
+            for j in i + 1..seq.len() {
+                stats.observations += 1;
+                if self.before.contains(&(seq[j], seq[i])) {
+                    return Err(Fail::new(format!("element {} is before {} at r{r} now, but the opposite order was read earlier somewhere: no single global order exists (r{r} reads {seq:?})", seq[i], seq[j])));
+                }
+                self.before.insert((seq[i], seq[j]));
+            }
+        }
+        self.seqs[r] = seq;
+        Ok(())
+    }
+}
+
+fn check_list_duels(case: &DuelCase, stats: &mut Stats) -> Result<(), Fail> {
+    use crdts::list::Op as LOp;
+    let plan = Plan { editors: 3, observers: 2, steps: Vec::new(), settle: vec![0; 8], actors: case.actors };
+    let cfg = RunCfg::new(Disc::Causal);
+    let mut sim = new_sim::<SList>(&plan, &cfg, stats);
+    let n = sim.reps.len();
+    let mut oracle = OrderOracle { before: HashSet::new(), seqs: vec![Vec::new(); n] };
+    let mut pending_for_observers: Vec<usize> = Vec::new();
+    let mut tag = 0u32;
+    let mut run = |sim: &mut Sim<SList>, oracle: &mut OrderOracle, stats: &mut Stats| -> Result<(), Fail> {
+        for (ri, round) in case.rounds.iter().enumerate() {
+            // editors are fully synchronised here: each inserts from its own read
+            let mut who: Vec<usize> = (0..3).filter(|e| round.who & (1 << e) != 0).collect();
+            if who.len() < 2 {
+                who = vec![ri % 3, (ri + 1) % 3];
+            }
+            let mut new_ops: Vec<usize> = Vec::new();
+            for &e in &who {
+                let st = &sim.reps[e].st;
+                let seq = list_seq(st);
+                let newest = seq.iter().enumerate().max_by_key(|(_, t)| **t).map(|(p, _)| p);
+                let i = match newest {
+                    None => 0,
+                    Some(p) => {
+                        // the neighbour of the newest element that is itself the second newest => the newest gap
+                        let left_newer = p > 0 && (p + 1 >= seq.len() || seq[p - 1] > seq[p + 1]);
+                        match round.gap[e] {
+                            0 | 1 => {
+                                if left_newer {
+                                    p
+                                } else {
+                                    p + 1
+                                }
+                            }
+                            2 => p,
+                            _ => p + 1,
+                        }
+                    }
+                };
+                tag += 1;
+                let actor = sim.reps[e].actor.unwrap();
+                let op: LOp<u32, u8> = st.insert_index(i, tag, actor);
+                let d = op.dot();
+                let call = format!("insert_index({i}, {tag}) -> id {}", op.id());
+                let id = sim.inject(e, op, Sem::ListIns { tag, dot: (d.actor, d.counter) }, call);
+                new_ops.push(id);
+                oracle.observe(sim, e, stats)?;
+            }
+            // exchange among the editors in a generated order
+            let mut bits = round.order;
+            for e in 0..3 {
+                let mut todo: Vec<usize> = new_ops.iter().copied().filter(|o| !has(sim.reps[e].know, *o)).collect();
+                if bits & 1 == 1 {
+                    todo.reverse();
+                }
+                bits >>= 1;
+                for o in todo {
+                    sim.deliver(e, o);
+                    if sim.trace {
+                        sim.log.push(format!("r{e} <- op#{o}"));
+                    }
+                    oracle.observe(sim, e, stats)?;
+                }
+            }
+            // optional delete of the newest element by one editor, delivered to the other editors
+            if round.del != 0 {
+                let e = (round.del % 3) as usize;
+                let st = &sim.reps[e].st;
+                let seq = list_seq(st);
+                if let Some((p, t)) = seq.iter().enumerate().max_by_key(|(_, t)| **t).map(|(p, t)| (p, *t)) {
+                    let actor = sim.reps[e].actor.unwrap();
+                    if let Some(op) = st.delete_index(p, actor) {
+                        let d = op.dot();
+                        let id = sim.inject(e, op, Sem::ListDel { tag: t, dot: (d.actor, d.counter) }, format!("delete_index({p}) [elem {t}]"));
+                        new_ops.push(id);
+                        oracle.observe(sim, e, stats)?;
+                        for q in 0..3 {
+                            if q != e {
+                                sim.deliver(q, id);
+                                if sim.trace {
+                                    sim.log.push(format!("r{q} <- op#{id}"));
+                                }
+                                oracle.observe(sim, q, stats)?;
+                            }
+                        }
+                    }
+                }
+            }
+            // observers: first what they still miss from earlier rounds (causal), then this round unless lagging
+            pending_for_observers.extend(new_ops.iter().copied());
+            for (k, obs) in (3..n).enumerate() {
+                let lagging = round.lag & (1 << k) != 0;
+                let mut todo: Vec<usize> = pending_for_observers.iter().copied().filter(|o| !has(sim.reps[obs].know, *o)).collect();
+                if lagging {
+                    todo.retain(|o| !new_ops.contains(o));
+                }
+                // a generated linear extension of causality: repeatedly pick among the eligible ones
+                let mut pick = round.order.rotate_left(3 * (k as u32 + 1));
+                while !todo.is_empty() {
+                    let el: Vec<usize> = todo.iter().copied().filter(|o| sim.eligible(obs, *o, Disc::Causal)).collect();
+                    if el.is_empty() {
+                        break;
+                    }
+                    let o = el[idx(pick, el.len())];
+                    pick = pick.rotate_left(5) ^ 0x9e37;
+                    sim.deliver(obs, o);
+                    if sim.trace {
+                        sim.log.push(format!("r{obs} <- op#{o}"));
+                    }
+                    todo.retain(|x| *x != o);
+                    oracle.observe(sim, obs, stats)?;
+                }
+            }
+        }
+        // settle the observers
+        for obs in 3..n {
+            loop {
+                let el: Vec<usize> = (0..sim.ops.len()).filter(|o| sim.eligible(obs, *o, Disc::Causal)).collect();
+                if el.is_empty() {
+                    break;
+                }
+                sim.deliver(obs, el[0]);
+                oracle.observe(sim, obs, stats)?;
+            }
+        }
+        let s0 = list_seq(&sim.reps[0].st);
+        for r in 1..n {
+            if list_seq(&sim.reps[r].st) != s0 {
+                return Err(Fail::new(format!("after everything was delivered r{r} reads {:?} but r0 reads {s0:?}", list_seq(&sim.reps[r].st))));
+            }
+        }
+        Ok(())
+    };
+    let res = run(&mut sim, &mut oracle, stats);
+    if let Err(f) = res {
+        return Err(fail_with(&sim, stats, f));
+    }
+    let depth = sim.reps.iter().map(|r| max_depth(&r.st)).max().unwrap_or(0);
+    for d in [3usize, 5, 7, 9] {
+        if depth >= d {
+            stats.class(&format!("identifier path depth >= {d}"));
+        }
+    }
+    if depth >= 3 {
         stats.cur_nontrivial = true;
         stats.class("nontrivial");
     }
@@ -138,6 +368,7 @@ pub fn property() -> Property {
     let w = Weights { edit: 45, deliver: 40, redeliver: 10, merge: 0, snapshot: 0, merge_snapshot: 0, save_restore: 0, probe: 0 };
     let pc = PlanCfg::new(w).steps(8, 40).editors(2, 5).observers(0, 1);
     jobs.push(mk_job("List<u32,u8>/causal/ops+dups (delayed delivery)", 80000, 400_000, pc, Ctx::new(Disc::Causal), check_list_order).floor("nontrivial", 0.05).boxed());
+    jobs.push(job("List<u32,u8>/nested duels (structured: deep identifier paths)", 30000, 300_000, duel_strategy, |c: &DuelCase, st: &mut Stats| check_list_duels(c, st)).floor("nontrivial", 0.3).boxed());
     Property {
         id: "C12",
         rule: "Plans of insert_index (any index incl. beyond len), append and delete_index with unique element tags at 2-4 actors, with DELAYED causal delivery (so 3+ actors insert into the same gap concurrently) and duplicates. Oracles after every step: membership = inserted-and-known minus deleted-and-known, each element once; replicas with equal knowledge read the same sequence; the 'x before y' relation collected from every replica at every step is antisymmetric and (at the end) acyclic, i.e. one global total order exists; after a final causal settle all replicas read the same sequence and it extends the collected relation. Also API consistency of read/iter/iter_entries/position/position_entry/get/first/last/len. Non-trivial = two concurrent inserts by different replicas whose origins saw the same (prev,next) neighbours, a delete of a remotely inserted element, and replicas with different non-empty knowledge compared; distinct = distinct Plan hash.".into(),
